@@ -37,6 +37,9 @@ class ExtractError(Exception):
     pass
 
 
+DRIFT_LOG = []
+
+
 def erase_ghost(toks):
     """Return (code, anns) where code is the list of code tokens and anns is a list of
     (pos, [tokens]) meaning: chunk sits before code[pos] (pos == len(code) => at end)."""
@@ -78,6 +81,12 @@ def erase_ghost(toks):
                 i = k + 1
                 continue
         if t.kind == "id":
+            # `for PAT in it: EXPR` -- the ghost iterator name is an annotation
+            if tx == "in" and i + 2 < n and toks[i + 1].kind == "id" and toks[i + 2].text == ":" and toks[i + 2].kind == "punct":
+                code.append(t)
+                add_ann(toks[i + 1:i + 3])
+                i += 3
+                continue
             if tx in CLAUSE_KW:
                 # skip to the '{' at depth 0
                 j = i + 1
@@ -168,6 +177,8 @@ def merge(code0, anns, code1):
                     pos_map[i1 + k] = j1 + k
             else:
                 drift += max(i2 - i1, j2 - j1)
+                DRIFT_LOG.append("template `%s` vs source `%s` (source line %s)" % (
+                    " ".join(a[i1:i2])[:80], " ".join(b[j1:j2])[:80], code1[min(j1, len(code1) - 1)].line if code1 else "?"))
                 for k in range(i1, i2):
                     # anchored before a deleted/replaced token: put at the start of the
                     # replacement if it is the first token of the block, else at its end
@@ -215,6 +226,7 @@ class Unit:
         self.regions = []
         self.text = ""
         self.linemap = []   # per generated line (1-based index-1): dict(origin=..., region=..., line=...)
+        self.imports = []
         self.props = {}     # fn name -> set(property ids) from //@ tags directives
         self.tags = []      # list of (kind, value)
 
@@ -318,6 +330,19 @@ class Unit:
                 self.regions.append(reg)
                 i = j + 1
                 continue
+            if s.startswith("//@ import "):
+                # //@ import <unit> : <item path>  -- the function's signature + contract from another
+                # unit's template, body replaced: an external_body stub whose contract is PROVED in that unit
+                m = re.match(r"//@ import (\S+)\s*:\s*(.+)$", s)
+                if not m:
+                    raise ExtractError("bad import directive: %s" % s)
+                stub = self._import_contract(m.group(1), m.group(2).split(), devs)
+                for ln2 in stub:
+                    out_lines.append(ln2)
+                    linemap.append({"origin": "import", "file": m.group(1), "line": origin_of[i][1]})
+                self.imports.append("%s: %s" % (m.group(1), m.group(2).strip()))
+                i += 1
+                continue
             if s.startswith("//@ prop "):
                 # //@ prop C01 C03 : fn_name fn_name2 ...
                 m = re.match(r"//@ prop ([^:]+):(.*)$", s)
@@ -330,6 +355,32 @@ class Unit:
         self.text = "\n".join(out_lines)
         self.linemap = linemap
         return self.text
+
+    def _import_contract(self, unit, path, devs):
+        other = os.path.join(os.path.dirname(self.spec_path), unit + ".rs")
+        loaded = self._load(other, devs, 1)
+        lines = [x[0] for x in loaded]
+        want = " ".join(path)
+        for k, ln in enumerate(lines):
+            m = re.match(r"\s*//@ extract (\S+)\s*:\s*(.+)$", ln)
+            if m and " ".join(m.group(2).split()) == want:
+                body = []
+                j = k + 1
+                while j < len(lines) and not lines[j].strip().startswith("//@ end"):
+                    if not lines[j].strip().startswith("//@"):
+                        body.append(lines[j])
+                    j += 1
+                toks = lex("\n".join(body))
+                items = rustlex.parse_items(toks)
+                fns = [it for it in items if it.kind == "fn"]
+                if len(fns) != 1 or fns[0].body_open is None:
+                    raise ExtractError("import %s: region is not a single fn" % want)
+                it = fns[0]
+                hdr = toks[it.attr_start:it.body_open]
+                text = rustlex.render(hdr)
+                return ["// ---- contract imported from unit %s (%s): proved there against the real body" % (unit, want),
+                        "#[verifier::external_body]"] + text.split("\n") + ["{ unimplemented!() }"]
+        raise ExtractError("import: no region `%s` in unit %s" % (want, unit))
 
     def _build_region(self, reg, ttoks, src_cache, canary):
         path = os.path.join(self.repo, reg.file)
